@@ -14,6 +14,8 @@ import tracecheck
 
 
 def check(run):
+    if xc.maybe_replay(run):
+        return
     quick = run.tier == "quick"
     run.build_harness()
     run.tlc_mc("XState.tla", "MC_XState_crash.cfg" if quick else "MC_XState_crash_thorough.cfg", timeout=3000)
